@@ -1,6 +1,6 @@
 (** Property C08 -- SGR attributes and colours.
     Only pinned statements, closed by [exact], with their assumptions printed. *)
-From Avt Require Import Oracles.Step Proofs.Sgr.
+From Avt Require Import Oracles.Step Proofs.Inv Proofs.Sgr Proofs.StepC06C08.
 
 (** C08.1 the SGR decoder of the model is the grammar of the property text, for every parameter array. *)
 Theorem C08_decode : forall ps, sgr_ops ps = spec_sgr_params ps.
@@ -25,3 +25,9 @@ Theorem C08_execute : forall t ops, execute t (Sgr ops) = Ok (t <| tpen := fold_
 Proof. exact C08_execute_sgr. Qed.
 Check C08_execute : forall t ops, execute t (Sgr ops) = Ok (t <| tpen := fold_left sgr_one ops (tpen t) |>).
 Print Assumptions C08_execute.
+
+(** no function other than SGR (and the restores / resets that are specified to) changes the pen *)
+Theorem C08_pen_frame : forall p p' t f t', TInv t -> execute t f = Ok t' -> match f with Sgr _ => False | _ => True end -> holds_C08 (mkVt p t) f (mkVt p' t') = true.
+Proof. exact C08_nonsgr_holds. Qed.
+Check C08_pen_frame : forall p p' t f t', TInv t -> execute t f = Ok t' -> match f with Sgr _ => False | _ => True end -> holds_C08 (mkVt p t) f (mkVt p' t') = true.
+Print Assumptions C08_pen_frame.
